@@ -299,6 +299,51 @@ func (w *World) doCLI(kind string, id uuid.UUID, k int, how string) (res string,
 	return "ok", fired, "", ""
 }
 
+// Reapply runs transaction.Reapply / `wrgl reapply ID`; res is "ok" or "err".
+func (w *World) Reapply(id uuid.UUID) (res string, errText string) {
+	if w.CLI() {
+		w.closeFn()
+		w.closeFn = nil
+		out, err := w.repo.Run(nil, "reapply", id.String())
+		if oerr := w.open(); oerr != nil {
+			return "", "harness: reopen: " + oerr.Error()
+		}
+		if err != nil {
+			if strings.HasPrefix(err.Error(), "PANIC") {
+				return "panic", err.Error()
+			}
+			return "err", err.Error() + " " + out
+		}
+		return "ok", ""
+	}
+	var err error
+	var panicked string
+	func() {
+		defer func() {
+			if p := recover(); p != nil {
+				panicked = fmt.Sprint(p)
+			}
+		}()
+		// (the command checks the status itself; the library function is given committed transactions only)
+		tx, gerr := w.RS.GetTransaction(id)
+		switch {
+		case gerr != nil:
+			err = fmt.Errorf("transaction not found")
+		case tx.Status != ref.TSCommitted:
+			err = fmt.Errorf("transaction not committed")
+		default:
+			err = transaction.Reapply(w.DB, w.RS, id, func(string, []byte, string) {})
+		}
+	}()
+	if panicked != "" {
+		return "panic", panicked
+	}
+	if err != nil {
+		return "err", err.Error()
+	}
+	return "ok", ""
+}
+
 // ---------------------------------------------------------------------------
 // building blocks shared by replay and record
 
